@@ -58,6 +58,16 @@ fn lbl_char(l: &str) -> char {
 }
 fn steps(labels: &[String]) -> String { if labels.is_empty() { "-".into() } else { labels.iter().map(|l| lbl_char(l)).collect() } }
 
+fn new_cb(live: &Path, img: &Path, target: usize) -> Cb {
+    let mut cb = Cb::new(PREFIXES.to_vec(), live, img, target);
+    cb.order_dir = Some(live.join("persist/shards"));
+    cb
+}
+/// observed shard order of a multi-shard loop: relation names in the order their metadata was renamed into place
+fn order(cb: &Cb) -> String {
+    cb.order.iter().map(|n| n.strip_prefix("default_").unwrap_or(n).to_string()).collect::<Vec<_>>().join("+")
+}
+
 fn ids(s: &str) -> Option<Vec<Tuple>> { s.split(',').map(|x| x.parse::<u64>().ok().map(tuple)).collect() }
 
 fn run_op(eng: &mut StorageEngine, t: &[&str]) -> Option<bool> {
@@ -145,7 +155,7 @@ pub fn exec(req: &str) -> String {
     macro_rules! finish { () => {{ crashfs::mark("harness:pre"); return out.join(" "); }} }
     // reopen after a crash, recording the recovery's steps; with `target > 0` take the image at that step
     let reopen = |target: usize| -> (Result<StorageEngine, String>, Cb) {
-        crashfs::arm(Cb::new(PREFIXES.to_vec(), &live, &img, target));
+        crashfs::arm(new_cb(&live, &img, target));
         let r = open(&live, b);
         (r, crashfs::disarm().unwrap())
     };
@@ -168,7 +178,7 @@ pub fn exec(req: &str) -> String {
                         }
                         drop(eng);
                         crashfs::swap_in(&live, &img);
-                        out.push("!".into());
+                        out.push(format!("!{}", order(&cb)));
                         continue;
                     }
                 }
@@ -185,14 +195,17 @@ pub fn exec(req: &str) -> String {
         let toks = match it { Some(t) => t, None => break };
         let mut eng = match std::mem::replace(&mut sys, Sys::Down) { Sys::Up(e) => e, Sys::Down => unreachable!() };
         let crash_tok = toks.last().filter(|l| l.starts_with('@')).copied();
+        let multi = matches!(toks.first().copied(), Some("F") | Some("C"));
+        let mut crashed_ord = String::new();
         match (toks.as_slice(), crash_tok) {
             (["R"], _) | (["O", _], _) => { crashfs::snapshot(&live, &img); }
             (_, Some(ct)) => {
                 let (j, cut) = match crash_spec(ct) { Some(x) => x, None => return "bad-request".into() };
-                crashfs::arm(Cb::new(PREFIXES.to_vec(), &live, &img, j));
+                crashfs::arm(new_cb(&live, &img, j));
                 let r = run_op(&mut eng, &toks[..toks.len() - 1]);
                 let cb = crashfs::disarm().unwrap();
                 if r.is_none() { return "bad-request".into(); }
+                if multi { crashed_ord = order(&cb); }
                 match (cb.hit_label.as_deref(), cut) {
                     (None, _) => crashfs::snapshot(&live, &img),
                     (Some(l), Some((k, f))) => apply_cut(&img, l, &cb.pre_sizes, k, f),
@@ -200,17 +213,18 @@ pub fn exec(req: &str) -> String {
                 }
             }
             (t, None) => {
-                crashfs::arm(Cb::new(PREFIXES.to_vec(), &live, &img, 0));
+                crashfs::arm(new_cb(&live, &img, 0));
                 let r = run_op(&mut eng, t);
                 let cb = crashfs::disarm().unwrap();
-                match r { Some(ok) => out.push(format!("{}/{}", if ok { "ok" } else { "err" }, steps(&cb.labels))), None => return "bad-request".into() }
+                let ord = if multi && !cb.order.is_empty() { format!("/{}", order(&cb)) } else { String::new() };
+                match r { Some(ok) => out.push(format!("{}/{}{}", if ok { "ok" } else { "err" }, steps(&cb.labels), ord)), None => return "bad-request".into() }
                 sys = Sys::Up(eng);
                 continue;
             }
         }
         drop(eng);
         crashfs::swap_in(&live, &img);
-        out.push("!".into());
+        out.push(format!("!{crashed_ord}"));
     }
     drop(sys_drop(sys));
     crashfs::mark("harness:pre");
@@ -221,7 +235,7 @@ fn sys_drop(s: Sys) -> Option<StorageEngine> { match s { Sys::Up(e) => Some(e), 
 // ---------- generator ----------
 
 /// run a history crash-free on the real engine and return the step strings of every output token
-fn probe(req: &str) -> Vec<String> { exec(req).split(' ').map(|t| t.trim_matches(|c| c == '[' || c == ']').rsplit('/').next().unwrap_or("").to_string()).collect() }
+fn probe(req: &str) -> Vec<String> { exec(req).split(' ').map(|t| t.trim_matches(|c| c == '[' || c == ']').split('/').nth(1).unwrap_or("").to_string()).collect() }
 
 pub fn gen(ctx: &mut Ctx) -> Vec<String> {
     let mut out = vec![];
